@@ -32,6 +32,7 @@ import (
 	"flag"
 	"fmt"
 	"io"
+	nethttp "net/http"
 	"os"
 	"path/filepath"
 	"strconv"
@@ -67,6 +68,8 @@ type Req struct {
 	Range  Range  `json:"range"`
 	Ae     bool   `json:"ae"`   // send "Accept-Encoding: gzip"
 	Host   string `json:"host"` // Host header
+	Ims    string `json:"ims"`  // "" | before | equal | after | bad  (relation of If-Modified-Since to the files' mtime)
+	ImsStr string `json:"imsstr"`
 }
 
 type Tree struct {
@@ -76,6 +79,7 @@ type Tree struct {
 	ALen    int   `json:"alen"`
 	PIdxLen int   `json:"pidxlen"`
 	Many    int   `json:"many"`
+	MTime   string `json:"mtime"` // HTTP date: modification time given to every file of the tree
 }
 
 type Case struct {
@@ -140,7 +144,7 @@ func (t *tree) diskPath(name string) string {
 	return filepath.Join(t.root, filepath.FromSlash(name))
 }
 
-func buildTree(scratch string, specs map[string]int, order []string, many int) (*tree, error) {
+func buildTree(scratch string, specs map[string]int, order []string, many int, mtime time.Time) (*tree, error) {
 	dir, err := os.MkdirTemp(scratch, "c08tree_")
 	if err != nil {
 		return nil, err
@@ -200,9 +204,8 @@ func buildTree(scratch string, specs map[string]int, order []string, many int) (
 		t.files = append(t.files, f)
 	}
 	// files must look old and never change: fixed mtime
-	old := time.Date(2020, 1, 2, 3, 4, 5, 0, time.UTC)
 	for _, f := range t.files {
-		os.Chtimes(t.diskPath(f.name), old, old)
+		os.Chtimes(t.diskPath(f.name), mtime, mtime)
 	}
 	return t, nil
 }
@@ -316,6 +319,26 @@ type plainReader struct{ r io.Reader } // hides WriterTo so that io.Copy uses Re
 
 func (p plainReader) Read(b []byte) (int, error) { return p.r.Read(b) }
 
+type plainWriter struct{ w io.Writer } // a writer without ReadFrom: io.Copy(plainWriter, stream) takes the stream's WriteTo loop
+
+func (p plainWriter) Write(b []byte) (int, error) { return p.w.Write(b) }
+
+// watchdog: a request that does not return within this time is recorded as Hang (e.g. a lock left held by a panic)
+var (
+	hangMu      sync.Mutex
+	hangCount   int
+	hangTimeout = 4 * time.Second
+)
+
+func currentHangTimeout() time.Duration {
+	hangMu.Lock()
+	defer hangMu.Unlock()
+	if hangCount >= 6 { // the run is rejected anyway; do not spend minutes on every further stuck handler
+		return 700 * time.Millisecond
+	}
+	return hangTimeout
+}
+
 func runCase(tr *vtrace.Writer, t *tree, c *Case, cacheDur time.Duration) {
 	tr.Emit("Case", vtrace.Rec(c.raw))
 	e := newEngine()
@@ -349,7 +372,26 @@ func runCase(tr *vtrace.Writer, t *tree, c *Case, cacheDur time.Duration) {
 		os.Exit(2)
 	}
 	for i, rq := range c.Reqs {
-		serveOne(tr, t, e, c, i, prefix, rq)
+		type result struct {
+			ev  string
+			rec vtrace.Rec
+		}
+		done := make(chan result, 1)
+		go func(i int, rq Req) {
+			ev, rec := serveOne(t, e, c, i, prefix, rq)
+			done <- result{ev, rec}
+		}(i, rq)
+		select {
+		case r := <-done:
+			tr.Emit(r.ev, r.rec)
+		case <-time.After(currentHangTimeout()):
+			hangMu.Lock()
+			hangCount++
+			hangMu.Unlock()
+			tr.Emit("Hang", echo(t, i, rq))
+			tr.Emit("End", nil) // the handler of this case is stuck: the remaining requests are not attempted
+			return
+		}
 	}
 	tr.Emit("End", nil)
 }
@@ -363,15 +405,15 @@ func echo(t *tree, i int, rq Req) vtrace.Rec {
 		}
 	}
 	return vtrace.Rec{"i": i + 1, "path": rq.Path, "method": rq.Method, "rstr": rq.Range.Str, "rkind": rq.Range.Kind,
-		"ae": rq.Ae, "host": rq.Host, "tgt": rq.Tgt, "flen": flen}
+		"ae": rq.Ae, "host": rq.Host, "ims": rq.Ims, "tgt": rq.Tgt, "flen": flen}
 }
 
-func serveOne(tr *vtrace.Writer, t *tree, e *route.Engine, c *Case, i int, prefix string, rq Req) {
+func serveOne(t *tree, e *route.Engine, c *Case, i int, prefix string, rq Req) (evName string, evRec vtrace.Rec) {
 	defer func() {
 		if r := recover(); r != nil {
-			ev := echo(t, i, rq)
-			ev["msg"] = fmt.Sprint(r)
-			tr.Emit("Panic", ev)
+			evRec = echo(t, i, rq)
+			evRec["msg"] = fmt.Sprint(r)
+			evName = "Panic"
 		}
 	}()
 	ctx := e.NewContext()
@@ -383,6 +425,9 @@ func serveOne(tr *vtrace.Writer, t *tree, e *route.Engine, c *Case, i int, prefi
 	}
 	if rq.Ae {
 		ctx.Request.Header.Set("Accept-Encoding", "gzip")
+	}
+	if rq.Ims != "" {
+		ctx.Request.Header.Set("If-Modified-Since", rq.ImsStr)
 	}
 	e.ServeHTTP(context.Background(), ctx)
 
@@ -400,6 +445,9 @@ func serveOne(tr *vtrace.Writer, t *tree, e *route.Engine, c *Case, i int, prefi
 		var err error
 		if c.Via == "writeto" {
 			err = resp.BodyWriteTo(&buf)
+		} else if c.Via == "iocopy" { // what user code / middleware does: io.Copy(w, ctx.Response.BodyStream())
+			_, err = io.Copy(plainWriter{&buf}, resp.BodyStream())
+			resp.CloseBodyStream() //nolint:errcheck
 		} else {
 			_, err = io.Copy(&buf, plainReader{resp.BodyStream()})
 			resp.CloseBodyStream() //nolint:errcheck
@@ -430,7 +478,7 @@ func serveOne(tr *vtrace.Writer, t *tree, e *route.Engine, c *Case, i int, prefi
 		"enc": enc, "wlen": wlen, "leak": leak, "rerr": rerr, "skip": resp.SkipBody, "stream": stream}) {
 		ev[k] = v
 	}
-	tr.Emit("Served", ev)
+	return "Served", ev
 }
 
 func openFDs() int {
@@ -458,6 +506,7 @@ func main() {
 	specs := map[string]int{}
 	var order []string
 	many := 0
+	mtimeStr := ""
 	add := func(name string, n int) {
 		if old, ok := specs[name]; ok {
 			if old != n {
@@ -495,9 +544,19 @@ func main() {
 			os.Exit(2)
 		}
 		many = c.Tree.Many
+		if mtimeStr != "" && mtimeStr != c.Tree.MTime {
+			fmt.Fprintln(os.Stderr, "cases disagree on tree.mtime")
+			os.Exit(2)
+		}
+		mtimeStr = c.Tree.MTime
 		all = append(all, c)
 	}
-	t, err := buildTree(*scratch, specs, order, many)
+	mtime, err := time.Parse(nethttp.TimeFormat, mtimeStr)
+	if err != nil {
+		fmt.Fprintln(os.Stderr, "bad tree.mtime:", err)
+		os.Exit(2)
+	}
+	t, err := buildTree(*scratch, specs, order, many, mtime)
 	if err != nil {
 		fmt.Fprintln(os.Stderr, "cannot build tree:", err)
 		os.Exit(2)
